@@ -231,6 +231,43 @@ pub fn make_case(prop: &str, seed: u64) -> Case {
             case.gen.mix = mix;
             log_setup(&mut case, &mut rng);
         }
+        "C08" => {
+            case.gen.topics = 1 + rng.below(2) as u32;
+            case.gen.partitions = 1 + rng.below(6) as u32;
+            case.gen.ops = 40 + rng.below(120) as u32;
+            case.gen.clients = 2 + rng.usize_below(5);
+            case.gen.batch_sizes = vec![1, 2, 3, 5];
+            case.gen.jump_micros = vec![3_000_000, 7_000_000];
+            let mut mix = Mix { groups: 60, send: 20, poll: 2, partitions: 8, connect: 8, jump: 4, job_heartbeat: 4, tick: 3, audit: 4, purge: 1, restart_clean: 1, ..Default::default() };
+            perturb(&mut rng, &mut mix);
+            mix.groups = mix.groups.max(30);
+            mix.send = mix.send.max(10);
+            case.gen.mix = mix;
+            log_setup(&mut case, &mut rng);
+            for t in 1..=case.gen.topics {
+                case.setup.push(Op::CreateGroup { c: 0, stream: IdRef::Num(1), topic: IdRef::Num(t), id: Some(1), name: format!("grp-{t}") });
+            }
+        }
+        "C09" | "C10" => {
+            case.gen.topics = 1 + rng.below(2) as u32;
+            case.gen.partitions = 1 + rng.below(2) as u32;
+            case.gen.ops = 40 + rng.below(140) as u32;
+            case.gen.clients = 2 + rng.usize_below(3);
+            case.gen.named_ids_chance = 0.3;
+            case.gen.batch_sizes = vec![1, 2];
+            case.gen.jump_micros = vec![600_000, 3_000_000, 40_000_000];
+            let mut mix = if prop == "C09" {
+                Mix { users: 40, catalogue: 20, groups: 8, send: 10, poll: 10, get_topic: 12, store_offset: 3, get_offset: 3, partitions: 3, purge: 2, flush: 2, tick: 2, audit: 2, connect: 2, ..Default::default() }
+            } else {
+                Mix { users: 70, catalogue: 4, send: 2, poll: 2, get_topic: 3, jump: 8, job_clean_tokens: 4, tick: 3, audit: 2, restart_clean: 6, restart_flush_kill: 1, connect: 3, ..Default::default() }
+            };
+            perturb(&mut rng, &mut mix);
+            mix.users = mix.users.max(30);
+            case.gen.mix = mix;
+            log_setup(&mut case, &mut rng);
+            case.setup.push(Op::CreateStream { c: 0, id: Some(2), name: "str-2".into() });
+            case.setup.push(Op::CreateTopic { c: 0, stream: IdRef::Num(2), id: Some(1), name: "top-1".into(), partitions: 1, expiry: Expiry::Never, max_size: MaxSize::Unlimited, replication: None, compression: 1 });
+        }
         "C07" => {
             case.gen.topics = 1 + rng.below(2) as u32;
             case.gen.partitions = 1 + rng.below(3) as u32;
